@@ -214,6 +214,11 @@ fn random_genes(t: &Tables, max: usize) -> BoxedStrategy<Vec<Gene>> {
         2 => prop::sample::select(vec![ExecOp::When, ExecOp::Unless, ExecOp::DupBlock]).prop_map(|o| Gene::I(Ins::Exec(o))),
         2 => Just(Gene::I(Ins::Exec(ExecOp::IfElse))),
         2 => leaf(ops).prop_map(Gene::I),
+        // an exec-stack literal (pushes a whole program): opens no block, whatever it carries
+        1 => (0i64..50, any::<bool>()).prop_map(|(k, block)| {
+            let inner = crate::model::vm::Prog::I(Ins::PushInt(k));
+            Gene::I(Ins::PushExec(Box::new(if block { crate::model::vm::Prog::B(vec![inner, crate::model::vm::Prog::I(Ins::Exec(ExecOp::IfElse))]) } else { inner })))
+        }),
     ];
     let opener = prop_oneof![
         prop::sample::select(vec![ExecOp::When, ExecOp::Unless, ExecOp::DupBlock, ExecOp::IfElse]).prop_map(|o| Gene::I(Ins::Exec(o)))
